@@ -10,8 +10,9 @@
 (*   k  kind = the Go type name in ast/ast.go, ast/ast_gop.go ("Ident",    *)
 (*      "BinaryExpr", "ErrWrapExpr", ...) or a pseudo kind                 *)
 (*      "Nil"  (absent optional child in a positional slot),               *)
-(*      "List" (a []T field when a node has several lists; a = "," or ",1" *)
-(*              comma list (",1": items parsed with lhs=true, no lambda),  *)
+(*      "List" (a []T field when a node has several lists; a = "," ",1" ",:"*)
+(*              comma list (",1": items parsed with lhs=true, no lambda;   *)
+(*              ",:": case list, followed by a colon),                     *)
 (*              ";" statement list),                                       *)
 (*      "Tuple" (parser-internal `(x, y)` before `=>`).                    *)
 (*   a  attribute string: operator / name / literal spelling / flags.      *)
@@ -275,6 +276,7 @@ FollowedByColon(t, i) ==
      (t.k = "SliceExpr" /\ (i = 2 \/ (i = 3 /\ t.a = "3")))
   \/ (t.k = "RangeExpr" /\ (i = 1 \/ (i = 2 /\ Has(t, 3))))
   \/ (t.k = "KeyValueExpr" /\ i = 1)
+  \/ (t.k = "List" /\ t.a = ",:" /\ i = Len(t.c))        \* the last expression of `case a, b:`
 RECURSIVE ExposedCL(_), Flat(_)
 \* a composite literal with a type name that is not enclosed in brackets: in a control clause
 \* (exprLev < 0) its "{" would be taken for the block (parsePrimaryExpr, case token.LBRACE)
@@ -655,8 +657,8 @@ PValue(ts, p, cx, keyOk) ==
 \* ---- statements (parser.go parseStmt / parseSimpleStmtEx / parseIfStmt / parseForStmt / parseSwitchStmt)
 AssignOps == {"=", ":=", "+=", "-=", "*=", "/=", "%=", "&=", "|=", "^=", "<<=", ">>=", "&^="}
 RhsCx(lev) == Cx(FALSE, FALSE, FALSE, FALSE, lev)
-RECURSIVE PStmt(_, _), PStmtList(_, _, _), PBlock(_, _), PSimple(_, _, _, _), PLhs(_, _, _, _), PIf(_, _), PFor(_, _),
-          PSwitch(_, _), PClauses(_, _, _)
+RECURSIVE PStmt(_, _), PStmtList(_, _, _), PBlock(_, _), PSimple(_, _, _, _), PLhs(_, _, _, _), PIf(_, _), PFor(_, _), PSpec(_, _, _), PGenDecl(_, _),
+          PSwitch(_, _), PClauses(_, _, _, _), PTypes(_, _, _), PCommClauses(_, _, _), PSpecs(_, _, _, _), PIdents(_, _, _)
 \* expectSemi: ";" is consumed, ")" "}" and the end of the text need none
 Semi(ts, r) == IF At(ts, r.p).s = ";" THEN R(r.t, r.p + 1)
                ELSE IF At(ts, r.p).s \in {")", "}", "<EOF>"} THEN r ELSE Err(ts)
@@ -747,27 +749,81 @@ PFor(ts, p) ==                     \* p at "for"
           b == PBlock(ts, c3.p)
       IN Semi(ts, R(N("ForStmt", "", <<s2.t, (IF c2.t.k = "Nil" THEN Nil ELSE CondOf(c2.t)), c3.t, b.t>>), b.p))
     ELSE LET b == PBlock(ts, s2.p) IN Semi(ts, R(N("ForStmt", "", <<Nil, CondOf(s2.t), Nil, b.t>>), b.p))
-PClauses(ts, p, acc) ==
+\* T {"," T}
+PTypes(ts, p, acc) ==
+  LET t == PType(ts, p) IN
+  IF At(ts, t.p).s = "," THEN PTypes(ts, t.p + 1, Append(acc, t.t)) ELSE [l |-> Append(acc, t.t), p |-> t.p]
+\* parseCaseClause; tsw: the clauses of a type switch list types
+PClauses(ts, p, tsw, acc) ==
   IF At(ts, p).s = "case" THEN
-    LET es == PExprs(ts, p + 1, RhsCx(0), <<>>) IN
+    LET es == IF tsw THEN PTypes(ts, p + 1, <<>>) ELSE PExprs(ts, p + 1, RhsCx(0), <<>>) IN
     IF At(ts, es.p).s # ":" THEN [l |-> Append(acc, Bad), p |-> Len(ts) + 2]
     ELSE LET b == PStmtList(ts, es.p + 1, <<>>) IN
-         PClauses(ts, b.p, Append(acc, N("CaseClause", "case", <<Lst(",", es.l), Lst(";", b.l)>>)))
+         PClauses(ts, b.p, tsw, Append(acc, N("CaseClause", "case", <<Lst(",:", es.l), Lst(";", b.l)>>)))
   ELSE IF At(ts, p).s = "default" /\ At(ts, p + 1).s = ":" THEN
     LET b == PStmtList(ts, p + 2, <<>>) IN
-    PClauses(ts, b.p, Append(acc, N("CaseClause", "default", <<Lst(",", <<>>), Lst(";", b.l)>>)))
+    PClauses(ts, b.p, tsw, Append(acc, N("CaseClause", "default", <<Lst(",", <<>>), Lst(";", b.l)>>)))
   ELSE [l |-> acc, p |-> p]
-PSwitch(ts, p) ==                  \* expression switch only
+IsTSAssert(x) == x.k = "TypeAssertExpr" /\ x.c[2].k = "Nil"
+\* isTypeSwitchGuard: `x.(type)` or `v := x.(type)`
+TSGuard(st) == \/ (st.k = "ExprStmt" /\ IsTSAssert(st.c[1]))
+               \/ (st.k = "AssignStmt" /\ st.a = ":=" /\ Len(st.c[1].c) = 1 /\ Len(st.c[2].c) = 1 /\ IsTSAssert(st.c[2].c[1]))
+PSwitch(ts, p) ==                  \* expression switch and type switch
   LET hc == Cx(FALSE, FALSE, FALSE, FALSE, -1)
       a1 == IF At(ts, p + 1).s \in {"{", ";"} THEN R(Nil, p + 1) ELSE PSimple(ts, p + 1, hc, "basic")
       two == At(ts, a1.p).s = ";"
       a2 == IF ~two THEN a1 ELSE IF At(ts, a1.p + 1).s = "{" THEN R(Nil, a1.p + 1) ELSE PSimple(ts, a1.p + 1, hc, "basic")
       init == IF two THEN a1.t ELSE Nil
+      tsw == a2.t.k # "Nil" /\ TSGuard(a2.t)
       tag == IF a2.t.k = "Nil" THEN Nil ELSE CondOf(a2.t)
   IN IF At(ts, a2.p).s # "{" THEN Err(ts)
-     ELSE LET cl == PClauses(ts, a2.p + 1, <<>>) IN
+     ELSE LET cl == PClauses(ts, a2.p + 1, tsw, <<>>) IN
           IF At(ts, cl.p).s # "}" THEN Err(ts)
+          ELSE IF tsw THEN Semi(ts, R(N("TypeSwitchStmt", "", <<init, a2.t, N("BlockStmt", "", cl.l)>>), cl.p + 1))
           ELSE Semi(ts, R(N("SwitchStmt", "", <<init, tag, N("BlockStmt", "", cl.l)>>), cl.p + 1))
+\* parseCommClause (select)
+PCommClauses(ts, p, acc) ==
+  IF At(ts, p).s = "case" THEN
+    LET l == PLhs(ts, p + 1, Cx(FALSE, FALSE, FALSE, TRUE, 0), <<>>)
+        tk == At(ts, l.p).s
+        comm == IF tk = "<-" THEN LET v == PExpr(ts, l.p + 1, RhsCx(0)) IN R(N("SendStmt", "", <<l.l[1], v.t>>), v.p)
+                ELSE IF tk \in {"=", ":="} THEN LET v == PExpr(ts, l.p + 1, RhsCx(0)) IN
+                                                  R(N("AssignStmt", tk, <<Lst(",1", l.l), Lst(",", <<v.t>>)>>), v.p)
+                ELSE R(N("ExprStmt", "", <<l.l[1]>>), l.p)
+    IN IF At(ts, comm.p).s # ":" THEN [l |-> Append(acc, Bad), p |-> Len(ts) + 2]
+       ELSE LET b == PStmtList(ts, comm.p + 1, <<>>) IN
+            PCommClauses(ts, b.p, Append(acc, N("CommClause", "case", <<comm.t, Lst(";", b.l)>>)))
+  ELSE IF At(ts, p).s = "default" /\ At(ts, p + 1).s = ":" THEN
+    LET b == PStmtList(ts, p + 2, <<>>) IN
+    PCommClauses(ts, b.p, Append(acc, N("CommClause", "default", <<Nil, Lst(";", b.l)>>)))
+  ELSE [l |-> acc, p |-> p]
+\* parseGenDecl with parseValueSpec / parseTypeSpec (var, const, type; not in class files)
+PIdents(ts, p, acc) ==
+  IF At(ts, p).s \notin IdentNames THEN [l |-> Append(acc, Bad), p |-> Len(ts) + 2]
+  ELSE IF At(ts, p + 1).s = "," THEN PIdents(ts, p + 2, Append(acc, Id(At(ts, p).s)))
+  ELSE [l |-> Append(acc, Id(At(ts, p).s)), p |-> p + 1]
+PSpec(ts, p, kw) ==
+  IF kw = "type" THEN
+    IF At(ts, p).s \notin IdentNames THEN Err(ts)
+    ELSE LET alias == At(ts, p + 1).s = "="
+             ty == PType(ts, IF alias THEN p + 2 ELSE p + 1)
+         IN R(N("TypeSpec", IF alias THEN "=" ELSE "", <<Id(At(ts, p).s), Nil, ty.t>>), ty.p)
+  ELSE
+    LET ns == PIdents(ts, p, <<>>)
+        ty == IF TypeStart(At(ts, ns.p).s) THEN PType(ts, ns.p) ELSE R(Nil, ns.p)
+        vs == IF At(ts, ty.p).s = "=" THEN PExprs(ts, ty.p + 1, RhsCx(0), <<>>) ELSE [l |-> <<>>, p |-> ty.p]
+    IN R(N("ValueSpec", "", <<Lst(",", ns.l), ty.t, Nil, Lst(",", vs.l)>>), vs.p)
+PSpecs(ts, p, kw, acc) ==
+  IF At(ts, p).s \in {")", "<EOF>"} THEN [l |-> acc, p |-> p]
+  ELSE LET sp == Semi(ts, PSpec(ts, p, kw)) IN
+       IF sp.t.k = "BadExpr" THEN [l |-> Append(acc, sp.t), p |-> Len(ts) + 2] ELSE PSpecs(ts, sp.p, kw, Append(acc, sp.t))
+PGenDecl(ts, p) ==                 \* p at the keyword; includes the expectSemi of the (last) spec
+  LET kw == At(ts, p).s IN
+  IF At(ts, p + 1).s = "(" THEN
+    LET ss == PSpecs(ts, p + 2, kw, <<>>) IN
+    IF At(ts, ss.p).s = ")" THEN Semi(ts, R(N("GenDecl", CASE kw = "var" -> "var(" [] kw = "const" -> "const(" [] OTHER -> "type(", ss.l), ss.p + 1))
+    ELSE Err(ts)
+  ELSE LET sp == Semi(ts, PSpec(ts, p + 1, kw)) IN R(N("GenDecl", kw, <<sp.t>>), sp.p)
 \* parseStmt(allowCmd = true)
 PStmt(ts, p) ==
   LET s == At(ts, p).s IN
@@ -785,7 +841,12 @@ PStmt(ts, p) ==
     [] s = "if" -> PIf(ts, p)
     [] s = "for" -> PFor(ts, p)
     [] s = "switch" -> PSwitch(ts, p)
-    [] s \in {"var", "const", "type", "select", ";"} -> Err(ts)          \* not modelled
+    [] s = "select" ->
+         IF At(ts, p + 1).s # "{" THEN Err(ts)
+         ELSE LET cl == PCommClauses(ts, p + 2, <<>>) IN
+              IF At(ts, cl.p).s = "}" THEN Semi(ts, R(N("SelectStmt", "", <<N("BlockStmt", "", cl.l)>>), cl.p + 1)) ELSE Err(ts)
+    [] s \in {"var", "const", "type"} -> LET d == PGenDecl(ts, p) IN R(N("DeclStmt", "", <<d.t>>), d.p)
+    [] s = ";" -> Err(ts)          \* empty statements are not generated
     [] OTHER ->
          LET st == PSimple(ts, p, Cx(s \in IdentNames \cup {"map"}, FALSE, FALSE, TRUE, 0), "label") IN
          IF st.t.k = "LabeledStmt" THEN st ELSE Semi(ts, st)
@@ -1037,10 +1098,27 @@ EBlk == N("BlockStmt", "", <<>>)
 SXS(e) == N("ExprStmt", "", <<e>>)
 SAsg(tok, l, r) == N("AssignStmt", tok, <<Lst(",1", l), Lst(",", r)>>)
 SIn(x, cond) == N("ForPhraseStmt", "", <<N("ForPhrase", "stmt", <<Nil, Id("x"), x, Nil, cond>>), EBlk>>)
-SAr1 == {"s:x", "s:def", "s:inc", "s:ret1", "s:go", "s:if", "s:for", "s:rng", "s:rng0", "s:in", "s:blk", "s:lbl", "s:ifelse"}
-SAr2 == {"s:asg", "s:add", "s:asg2", "s:send", "s:ret2", "s:ifinit", "s:inif", "s:sw", "s:for3", "s:nest", "s:blk2"}
-SMk(c, k) ==
+SAr1 == {"s:tsw", "s:tsw0", "s:var", "s:varT", "s:const", "s:vargrp", "s:selrecv", "s:x", "s:def", "s:inc", "s:ret1", "s:go", "s:if", "s:for", "s:rng", "s:rng0", "s:in", "s:blk", "s:lbl", "s:ifelse"}
+SAr2 == {"s:selsend", "s:var2", "s:tswinit", "s:asg", "s:add", "s:asg2", "s:send", "s:ret2", "s:ifinit", "s:inif", "s:sw", "s:for3", "s:nest", "s:blk2"}
+SMk0(c, k) ==
   CASE c = "s:x"    -> SXS(k[1])
+    [] c = "s:tsw"  -> N("TypeSwitchStmt", "", <<Nil, SAsg(":=", <<Id("v")>>, <<N("TypeAssertExpr", "", <<k[1], Nil>>)>>),
+                         N("BlockStmt", "", <<N("CaseClause", "case", <<Lst(",:", <<TId, N("StarExpr", "", <<TId>>)>>), Lst(";", <<SXS(N("CallExpr", "", <<Id("f"), Id("v")>>))>>)>>),
+                                               N("CaseClause", "default", <<Lst(",", <<>>), Lst(";", <<>>)>>)>>)>>)
+    [] c = "s:tsw0" -> N("TypeSwitchStmt", "", <<Nil, SXS(N("TypeAssertExpr", "", <<k[1], Nil>>)),
+                         N("BlockStmt", "", <<N("CaseClause", "case", <<Lst(",:", <<N("ArrayType", "", <<Nil, TId>>)>>), Lst(";", <<>>)>>)>>)>>)
+    [] c = "s:tswinit" -> N("TypeSwitchStmt", "", <<SAsg(":=", <<Id("a")>>, <<k[1]>>), SXS(N("TypeAssertExpr", "", <<k[2], Nil>>)), N("BlockStmt", "", <<>>)>>)
+    [] c = "s:var"  -> N("DeclStmt", "", <<N("GenDecl", "var", <<N("ValueSpec", "", <<Lst(",", <<Id("a")>>), Nil, Nil, Lst(",", k)>>)>>)>>)
+    [] c = "s:varT" -> N("DeclStmt", "", <<N("GenDecl", "var", <<N("ValueSpec", "", <<Lst(",", <<Id("a")>>), N("MapType", "", <<TId, N("StarExpr", "", <<TId>>)>>), Nil, Lst(",", k)>>)>>)>>)
+    [] c = "s:var2" -> N("DeclStmt", "", <<N("GenDecl", "var", <<N("ValueSpec", "", <<Lst(",", <<Id("a"), Id("b")>>), Nil, Nil, Lst(",", k)>>)>>)>>)
+    [] c = "s:const" -> N("DeclStmt", "", <<N("GenDecl", "const", <<N("ValueSpec", "", <<Lst(",", <<Id("c")>>), TId, Nil, Lst(",", k)>>)>>)>>)
+    [] c = "s:vargrp" -> N("DeclStmt", "", <<N("GenDecl", "var(", <<N("ValueSpec", "", <<Lst(",", <<Id("a")>>), Nil, Nil, Lst(",", k)>>),
+                                                                     N("ValueSpec", "", <<Lst(",", <<Id("b"), Id("c")>>), N("ArrayType", "", <<Nil, TId>>), Nil, Lst(",", <<>>)>>)>>)>>)
+    [] c = "s:selrecv" -> N("SelectStmt", "", <<N("BlockStmt", "", <<
+                             N("CommClause", "case", <<SAsg(":=", <<Id("v")>>, <<N("UnaryExpr", "<-", k)>>), Lst(";", <<SXS(N("CallExpr", "", <<Id("f"), Id("v")>>))>>)>>),
+                             N("CommClause", "case", <<SXS(N("UnaryExpr", "<-", <<Id("c")>>)), Lst(";", <<>>)>>),
+                             N("CommClause", "default", <<Nil, Lst(";", <<>>)>>)>>)>>)
+    [] c = "s:selsend" -> N("SelectStmt", "", <<N("BlockStmt", "", <<N("CommClause", "case", <<N("SendStmt", "", k), Lst(";", <<N("BranchStmt", "break", <<>>)>>)>>)>>)>>)
     [] c = "s:def"  -> SAsg(":=", <<Id("a")>>, k)
     [] c = "s:inc"  -> N("IncDecStmt", "++", k)
     [] c = "s:ret1" -> N("ReturnStmt", "", k)
@@ -1060,11 +1138,14 @@ SMk(c, k) ==
     [] c = "s:ret2" -> N("ReturnStmt", "", k)
     [] c = "s:ifinit" -> N("IfStmt", "", <<SAsg(":=", <<Id("a")>>, <<k[1]>>), k[2], EBlk, Nil>>)
     [] c = "s:inif" -> SIn(k[1], k[2])
-    [] c = "s:sw"   -> N("SwitchStmt", "", <<Nil, k[1], N("BlockStmt", "", <<N("CaseClause", "case", <<Lst(",", <<k[2], Lit("1")>>), Lst(";", <<N("BranchStmt", "fallthrough", <<>>)>>)>>),
+    [] c = "s:sw"   -> N("SwitchStmt", "", <<Nil, k[1], N("BlockStmt", "", <<N("CaseClause", "case", <<Lst(",:", <<Lit("1"), k[2]>>), Lst(";", <<N("BranchStmt", "fallthrough", <<>>)>>)>>),
                                                                                N("CaseClause", "default", <<Lst(",", <<>>), Lst(";", <<>>)>>)>>)>>)
     [] c = "s:for3" -> N("ForStmt", "", <<SAsg(":=", <<Id("a")>>, <<k[1]>>), k[2], N("IncDecStmt", "++", <<Id("a")>>), EBlk>>)
     [] c = "s:nest" -> N("IfStmt", "", <<Nil, k[1], N("BlockStmt", "", <<N("ForStmt", "", <<Nil, k[2], Nil, EBlk>>), N("ReturnStmt", "", <<>>)>>), Nil>>)
     [] c = "s:blk2" -> N("BlockStmt", "", <<SXS(N("CallExpr", "", <<Id("f"), k[1]>>)), N("DeferStmt", "", <<N("CallExpr", "", <<Id("f"), k[2]>>)>>)>>)
+\* a declaration statement goes inside a block (at the top level of a script `var x = 1` is a package-level declaration)
+InBlock(st) == IF st.k = "DeclStmt" THEN N("BlockStmt", "", <<st>>) ELSE st
+SMk(c, k) == InBlock(SMk0(c, k))
 RECURSIVE StmtOK(_)
 \* well-formed for the statement model: expression statements are no bare lambdas / literals, and no composite literal
 \* stands exposed in the simple statement of a control clause (it cannot be parenthesised as a whole)
@@ -1075,13 +1156,25 @@ StmtOK(t) == /\ (t.k = "ExprStmt" => t.c[1].k \notin {"LambdaExpr", "CompositeLi
                                           => t.c[i].k # "LambdaExpr"
              /\ \A i \in 1..Len(t.c) : (ControlSlot(t, i) /\ t.c[i].k \in {"AssignStmt", "ExprStmt", "IncDecStmt", "SendStmt"})
                                           => ~ExposedCL(Par(t.c[i]))
+             \* the communication of `case v := <-c!:` cannot be parenthesised as a whole: no errwrap at its right edge
+             /\ (t.k = "CommClause" /\ Has(t, 1)) =>
+                   LET st == t.c[1]
+                       e == IF st.k = "AssignStmt" THEN Last(st.c[2].c) ELSE Last(st.c)
+                   IN ~ColonHazard(Par(e))
              /\ \A i \in 1..Len(t.c) : StmtOK(t.c[i])
 StmtTrees(f) ==
   UNION { UNION {{SMk(c, <<x>>) : x \in ES(f)[n - 1]} : c \in SAr1}
           \cup (IF n < 3 THEN {} ELSE UNION {UNION {{SMk(c, <<x, y>>) : x \in ES(f)[i], y \in ES(f)[n - 1 - i]} : i \in 1..(n - 2)} : c \in SAr2})
         : n \in 2..Sizes[f] }
+\* declaration statements without expressions
+StmtFixed == { N("DeclStmt", "", <<N("GenDecl", "type", <<N("TypeSpec", "", <<Id("L"), Nil, N("ArrayType", "", <<Nil, TId>>)>>)>>)>>),
+               N("DeclStmt", "", <<N("GenDecl", "type(", <<N("TypeSpec", "=", <<Id("L"), Nil, TId>>),
+                                                           N("TypeSpec", "", <<Id("g"), Nil, N("MapType", "", <<TId, N("StarExpr", "", <<TId>>)>>)>>)>>)>>),
+               N("DeclStmt", "", <<N("GenDecl", "var", <<N("ValueSpec", "", <<Lst(",", <<Id("a"), Id("b")>>), TId, Nil, Lst(",", <<>>)>>)>>)>>),
+               N("DeclStmt", "", <<N("GenDecl", "const(", <<N("ValueSpec", "", <<Lst(",", <<Id("a")>>), Nil, Nil, Lst(",", <<Lit("1")>>)>>),
+                                                            N("ValueSpec", "", <<Lst(",", <<Id("b")>>), TId, Nil, Lst(",", <<Lit("2")>>)>>)>>)>>) }
 Universe(f) == IF f = "samples" THEN Samples
-               ELSE IF f = "stmt" THEN {t \in StmtTrees(f) : StmtOK(t)}
+               ELSE IF f = "stmt" THEN {t \in StmtTrees(f) : StmtOK(t)} \cup {InBlock(d) : d \in StmtFixed}
                ELSE IF FCtx(f) = "expr" THEN UpTo(f)
                ELSE {N("ExprStmt", "", <<e>>) : e \in {x \in UpTo(f) : x.k \notin {"LambdaExpr", "CompositeLit", "SliceLit"}} \cup CmdTrees(f)}
 
